@@ -98,39 +98,42 @@ def walk (config : List Cfg) : List Bytes → FC → List Bytes × FC × List By
     match cfgAt config key with
     | none =>
       -- key was deleted: print `key:`, delete(w.fileConfig, key), remove order[i], i--
-      let (ord, fc', out) := walk config rest (fc.erase key)
-      (ord, fc', delLine key :: out)
+      let r := walk config rest (fc.erase key)
+      (r.1, r.2.1, delLine key :: r.2.2)
     | some cfg =>
       if have_.1 == cfg.value && have_.2 == cfg.file then
         -- value did not change
-        let (ord, fc', out) := walk config rest fc
-        (key :: ord, fc', out)
+        let r := walk config rest fc
+        (key :: r.1, r.2.1, r.2.2)
       else
         let line : List Bytes :=
           if cfg.file then [kvLine key cfg.value]          -- value changed
           else if have_.2 then [delLine key]               -- file config became internal config
           else []                                          -- internal config: omitted
-        let (ord, fc', out) := walk config rest (fc.set key cfg.value cfg.file)
-        (key :: ord, fc', line ++ out)
+        let r := walk config rest (fc.set key cfg.value cfg.file)
+        (key :: r.1, r.2.1, line ++ r.2.2)
 
-/-- `for _, cfg := range res.Config { if _, ok := w.fileConfig[cfg.Key]; ok { continue }; … }` -/
+/-- `for _, cfg := range res.Config { if _, ok := w.fileConfig[cfg.Key]; ok { continue }; … }`
+Returns the new `fileConfig`, the new `order` and the lines printed. -/
 def newKeys : List Cfg → FC → List Bytes → FC × List Bytes × List Bytes
   | [], fc, ord => (fc, ord, [])
   | cfg :: rest, fc, ord =>
     if (fc.get cfg.key).isSome then newKeys rest fc ord
     else
       let line : List Bytes := if cfg.file then [kvLine cfg.key cfg.value] else []
-      let (fc', ord', out) := newKeys rest (fc.set cfg.key cfg.value cfg.file) (ord ++ [cfg.key])
-      (fc', ord', line ++ out)
+      let r := newKeys rest (fc.set cfg.key cfg.value cfg.file) (ord ++ [cfg.key])
+      (r.1, r.2.1, line ++ r.2.2)
 
 /-- `writeFileConfig(res)` -/
 def writeFileConfig (w : WState) (config : List Cfg) : WState × List Bytes :=
   -- configuration blocks after results get an extra blank
   let pre : List Bytes := if !w.first then [[]] else []
-  let (order1, fc1, out1) := walk config w.order w.fileConfig
-  let (fc2, order2, out2) :=
-    if fc1.length != config.length then newKeys config fc1 order1 else (fc1, order1, [])
-  ({ first := true, fileConfig := fc2, order := order2 }, pre ++ out1 ++ out2 ++ [[]])
+  -- (order, fileConfig, lines) after the walk
+  let r1 := walk config w.order w.fileConfig
+  -- (fileConfig, order, lines) after the new-keys pass
+  let r2 : FC × List Bytes × List Bytes :=
+    if r1.2.1.length != config.length then newKeys config r1.2.1 r1.1 else (r1.2.1, r1.1, [])
+  ({ first := true, fileConfig := r2.1, order := r2.2.1 }, pre ++ r1.2.2 ++ r2.2.2 ++ [[]])
 
 /-- value and unit a measurement is printed with -/
 def Val.written (v : Val) : UInt64 × Bytes :=
@@ -143,9 +146,9 @@ def benchLine (P : WParams) (r : Res) : Bytes :=
 
 /-- `writeResult(res)` -/
 def writeResult (P : WParams) (w : WState) (r : Res) : WState × List Bytes :=
-  let (w1, out) :=
+  let r1 : WState × List Bytes :=
     if needFileConfig w.fileConfig r.config then writeFileConfig w r.config else (w, [])
-  ({ w1 with first := false }, out ++ [benchLine P r])
+  ({ r1.1 with first := false }, r1.2 ++ [benchLine P r])
 
 /-- `"Unit %s %s=%s"` -/
 def unitLine (m : UnitMeta) : Bytes :=
@@ -160,9 +163,7 @@ def Writer.write (P : WParams) (w : WState) : Rec → WState × List Bytes
 /-- Lines printed for a whole history, from a given state. -/
 def Writer.writeFrom (P : WParams) : WState → List Rec → List Bytes
   | _, [] => []
-  | w, r :: rs =>
-    let (w', out) := Writer.write P w r
-    out ++ Writer.writeFrom P w' rs
+  | w, r :: rs => (Writer.write P w r).2 ++ Writer.writeFrom P (Writer.write P w r).1 rs
 
 /-- The writer state after a history. -/
 def Writer.stateAfter (P : WParams) : WState → List Rec → WState
